@@ -394,7 +394,7 @@ func init() {
 		}
 		return 5
 	}
-	fw.Register(addTok(tokFramesC07, &fw.Prop{
+	register(addTok(tokFramesC07, &fw.Prop{
 		ID: "C07",
 		Rule: "all statement trees with <= N nodes over 25 constructs (trace print, if / if-else with true, false and data-driven conditions, while with a counting and a false condition, three-clause for, for-in over array / object / string with one and two variables and over the three empty iterables, two-statement block, break, continue, return, next, exit), " +
 			"each placed in a BEGIN rule, in the first of two pattern rules over [1,2], in a function called (inside a print list) from such a rule, and in the first of two pattern rules over a stream of an object, a number and a string; trees that use break/continue outside a loop or return outside a function are left out (they are syntax errors, C11); oracle: the model's exact output trace (DESIGN.md 3.11-3.13); " +
